@@ -77,6 +77,12 @@ type rvFault struct{ why string }
 
 func rvFail(why string) { panic(rvFault{why}) }
 
+// rvUnspec ends a reference run in a corner this specification leaves open (both outcomes
+// are accepted): such runs are outside the claim.
+type rvUnspecified struct{ why string }
+
+func rvUnspec(why string) { panic(rvUnspecified{why}) }
+
 func rvTypeByte(k rvKind) int {
 	switch k {
 	case rvNull:
@@ -408,6 +414,7 @@ type rvVM struct {
 	uncaught *rvItem
 	steps    int
 	jumped   bool
+	unspec   bool
 }
 
 func rvNew(script []byte, initial []*rvItem) *rvVM {
@@ -543,11 +550,19 @@ func rvOperand(op byte) (prefix, fixed int) {
 }
 
 func (m *rvVM) jumpTo(f *rvFrame, target int) {
-	if target < 0 || target > len(m.script) {
+	if target < 0 || target >= len(m.script) {
 		rvFail("jump out of the script")
 	}
 	f.ip = target
 	m.jumped = true
+}
+
+// notTaken: a conditional jump that is not taken but whose target lies outside the script
+// is a corner left open (an implementation may validate the operand eagerly).
+func (m *rvVM) notTaken(target int) {
+	if target < 0 || target >= len(m.script) {
+		rvUnspec("untaken jump outside the script")
+	}
 }
 
 func (m *rvVM) throw(ex *rvItem) {
@@ -589,6 +604,10 @@ func (m *rvVM) run(maxSteps int) {
 			if f, ok := r.(rvFault); ok {
 				m.faulted = true
 				m.why = f.why
+				return
+			}
+			if _, ok := r.(rvUnspecified); ok {
+				m.unspec = true
 				return
 			}
 			panic(r)
@@ -745,10 +764,14 @@ func (m *rvVM) exec(f *rvFrame, op opcode.Opcode, arg []byte, start int) {
 	case opcode.JMPIF, opcode.JMPIFL:
 		if m.popBool() {
 			m.jumpTo(f, start+rvRel(arg))
+		} else {
+			m.notTaken(start + rvRel(arg))
 		}
 	case opcode.JMPIFNOT, opcode.JMPIFNOTL:
 		if !m.popBool() {
 			m.jumpTo(f, start+rvRel(arg))
+		} else {
+			m.notTaken(start + rvRel(arg))
 		}
 	case opcode.JMPEQ, opcode.JMPEQL, opcode.JMPNE, opcode.JMPNEL, opcode.JMPGT, opcode.JMPGTL, opcode.JMPGE, opcode.JMPGEL,
 		opcode.JMPLT, opcode.JMPLTL, opcode.JMPLE, opcode.JMPLEL:
@@ -772,6 +795,8 @@ func (m *rvVM) exec(f *rvFrame, op opcode.Opcode, arg []byte, start int) {
 		}
 		if take {
 			m.jumpTo(f, start+rvRel(arg))
+		} else {
+			m.notTaken(start + rvRel(arg))
 		}
 	case opcode.CALL, opcode.CALLL:
 		m.call(f, start+rvRel(arg))
@@ -809,14 +834,14 @@ func (m *rvVM) exec(f *rvFrame, op opcode.Opcode, arg []byte, start int) {
 		t := &rvTryCtx{catchOff: -1, finallyOff: -1, endOff: -1}
 		if c != 0 {
 			t.catchOff = start + c
-			if t.catchOff < 0 || t.catchOff > len(m.script) {
-				rvFail("catch out of the script")
+			if t.catchOff < 0 || t.catchOff >= len(m.script) {
+				rvUnspec("catch handler outside the script")
 			}
 		}
 		if fi != 0 {
 			t.finallyOff = start + fi
-			if t.finallyOff < 0 || t.finallyOff > len(m.script) {
-				rvFail("finally out of the script")
+			if t.finallyOff < 0 || t.finallyOff >= len(m.script) {
+				rvUnspec("finally handler outside the script")
 			}
 		}
 		f.try = append(f.try, t)
@@ -829,10 +854,10 @@ func (m *rvVM) exec(f *rvFrame, op opcode.Opcode, arg []byte, start int) {
 			rvFail("ENDTRY inside FINALLY")
 		}
 		end := start + rvRel(arg)
+		if end < 0 || end >= len(m.script) {
+			rvUnspec("end of the try block outside the script")
+		}
 		if t.finallyOff >= 0 {
-			if end < 0 || end > len(m.script) {
-				rvFail("end out of the script")
-			}
 			t.state = rvFinally
 			t.endOff = end
 			m.jumpTo(f, t.finallyOff)
@@ -1410,6 +1435,9 @@ func (m *rvVM) call(f *rvFrame, target int) {
 	if target < 0 || target > len(m.script) {
 		rvFail("call out of the script")
 	}
+	if target == len(m.script) {
+		rvUnspec("call to the end of the script")
+	}
 	if len(m.frames) >= rvMaxInvocation {
 		rvFail("invocation stack too deep")
 	}
@@ -1631,6 +1659,8 @@ func rvCompare(script []byte, initial []*rvItem, site string, maxSteps int) {
 	}
 	ref := rvNew(script, initial)
 	ref.run(maxSteps)
+	vfAssume(!(ref.faulted && ref.why == "reference step budget")) // longer runs are outside the bound
+	vfAssume(!ref.unspec)                                            // corners the specification leaves open
 	err := v.Run()
 	realFault := err != nil || v.state == vmstate.Fault
 	if ref.faulted {
